@@ -652,6 +652,12 @@ def zoo():
         ("tail-rec", grammar([("s", 1, A([t("a"), r("s")], [t("b")]))])),
         ("tail-rec-group", grammar([("s", 1, A([t("a"), ["g", A([t("b"), r("s")], [t("c")])]]))])),
         ("tail-rec-opt", grammar([("s", 1, A([t("a"), ["o", A([r("s")])]]))])),
+        # embedded recursion through a second rule that ALSO has a legal self tail recursion, written before / after the
+        # alternative that goes back to the outer rule (alternatives are expanded last first): still embedded, still refused
+        ("embedded-via-inner-tail-after", grammar([("s", 1, A([r("t"), t("b")], [t("c")])), ("t", 0, A([t("a"), r("s")], [t("c"), r("t")]))])),
+        ("embedded-via-inner-tail-before", grammar([("s", 1, A([r("t"), t("b")], [t("c")])), ("t", 0, A([t("c"), r("t")], [t("a"), r("s")]))])),
+        ("embedded-via-inner-tail-3", grammar([("s", 1, A([t("a"), r("t"), t("b")], [t("c")])),
+                                               ("t", 0, A([t("b"), r("s")], [t("a")], [t("c"), r("t")]))])),
         ("mutual-tail", grammar([("s", 1, A([t("a"), r("t")], [t("b")])), ("t", 0, A([t("c"), r("s")]))])),
         ("no-base-case", grammar([("s", 1, A([t("a"), r("s")]))])),
         ("repeat-ref", grammar([("s", 1, A([r("t"), r("t")], [r("t"), t("c"), r("t")])),
